@@ -41,7 +41,7 @@ var extra = []lww.Batch{
 	{I("b", 3), D("a"), S(6)},
 	{I("d", 1), S(7)},
 }
-var ids = []string{"a", "b", "c", "d", "zz"}
+var ids = []string{"a", "b", "c", "d", "e", "f", "zz"}
 var keys = []string{"seq"}
 
 func modelAfter(wl []lww.Batch, q int, withExtra int) *lww.Model {
@@ -209,7 +209,21 @@ var windowWorkload = []lww.Batch{
 	{I("a", 2), S(4)},
 }
 
+// groupWorkload: four unsafe batches pile up (two flush groups of two segments each for two
+// persister workers); the delete-only batch obsoletes EVERY document of the first flush group, so
+// that its merged segment is not introduced at all.
+var groupWorkload = []lww.Batch{
+	{I("a", 1), I("b", 1), S(1)},
+	{I("c", 1), S(2)},
+	{I("d", 1), I("e", 1), S(3)},
+	{I("f", 1), S(4)},
+	{D("a"), D("b"), D("c"), S(5)},
+	{I("a", 2), S(6)},
+}
+
 func bodyWindow(k cfg) func(c *drv.Ctx) {
+	wl := k.wl
+	pile := len(wl) - 2 // all but the delete-only batch and the closing batch pile up behind the parked persister
 	return func(c *drv.Ctx) {
 		ed := &execData{k: k}
 		c.Data = ed
@@ -247,7 +261,7 @@ func bodyWindow(k cfg) func(c *drv.Ctx) {
 		vrt.Recv(g.parked) // the creation round is persisted; the persister is parked
 		do := func(j int) {
 			b := idx.NewBatch()
-			if err := lww.Fill(b, windowWorkload[j-1]); err != nil {
+			if err := lww.Fill(b, wl[j-1]); err != nil {
 				panic(err)
 			}
 			b.SetPersistedCallback(func(err error) {
@@ -261,21 +275,22 @@ func bodyWindow(k cfg) func(c *drv.Ctx) {
 			}
 		}
 		capture = true
-		do(1)
-		do(2) // two unpersisted segments pile up
+		for j := 1; j <= pile; j++ {
+			do(j) // unpersisted segments pile up
+		}
 		start := make(chan int, 1)
 		var wg vrt.WaitGroup
 		wg.Add(1)
 		vrt.Go(func() { // created last: lowest priority in the default schedule
 			defer wg.Done()
 			vrt.Recv(start)
-			do(3)
+			do(pile + 1)
 		})
 		vrt.Send(start, 1)
 		vrt.Send(g.release, 1)
 		wg.Wait()
 		vrt.WaitIdle()
-		do(4)
+		do(pile + 2)
 		vrt.WaitIdle()
 		vrt.Point("fs:quiescent")
 		capture = false
@@ -666,6 +681,7 @@ func Scenarios() []drv.Scenario {
 		mk(cfg{name: "safe-aggressive-merge-3", conf: aggressive, nBatch: 3, window: "workload"}, d1r, nil),
 		mk(cfg{name: "unsafe-2-persister-workers-3", conf: unsafe2, unsafe: true, nBatch: 3, window: "workload"}, d1r, nil),
 		{Name: "unsafe-inmemory-merge-window", Body: bodyWindow(cfg{name: "unsafe-inmemory-merge-window", conf: unsafe2, unsafe: true, wl: windowWorkload}), After: after, Quick: d1r, Thorough: d2r, Class: "unsafe"},
+		{Name: "unsafe-flush-group-emptied-during-inmemory-merge", Doc: "four unsafe batches pile up behind the parked persister (two flush groups for two workers); a low-priority delete-only batch obsoletes every document of the first group inside the merge window; crash images at every effect boundary", Body: bodyWindow(cfg{name: "unsafe-flush-group-emptied-during-inmemory-merge", conf: unsafe2, unsafe: true, wl: groupWorkload}), After: after, Quick: d1r, Thorough: d2r, Class: "unsafe"},
 		{Name: "safe-batch-between-merge-and-purge", Body: bodyPurgeGate(cfg{name: "safe-batch-between-merge-and-purge", conf: aggressive, wl: purgeWorkload}), After: after, Quick: d0, Thorough: d1r, Class: "safe"},
 		mk(cfg{name: "safe-default", nBatch: 5, window: "workload"}, d0, d2r),
 		mk(cfg{name: "safe-aggressive-merge", conf: aggressive, nBatch: 5, window: "workload"}, d0, d2r),
